@@ -73,6 +73,12 @@ CLAIMED = {
          "and TablesAreImage for untainted sessions.",
          "The byte-level garbage is sampled; what a mutated-but-accepted message does to the target peer's own sessions is deliberately unconstrained (taint). " + TRUST,
          "5 C01"),
+ "C19": ("TLA+ R-spec SliceApi (unit conversion and 63-bit bound in BigNat arithmetic) + TraceC19: TLC judges status, header writes and slice-meter commands of real HTTP requests to the running agent",
+         "Real HTTP against the agent process (BESS datapath): every method x body class (valid, empty, not JSON, wrong types, truncated body on a half-closed connection), every unit x boundary rates around "
+         "2^63 / unit, seeded 64-bit rates and bursts. TLC checks StatusAsSpecified (201 / 4xx / 405), SingleResponse (no superfluous WriteHeader), RejectedLeavesDatapathUntouched (no sliceMeter command) and "
+         "ProgramsWhatWasPosted (pir = floor(converted bps / 8), cir 1, metered gate, pbs = posted burst or the default) exactly for non-zero rates whose conversion fits 63 bits.",
+         "UP4 slice/TC meter cell pending with the UP4 checks; a second header write is observed through net/http's log line. " + TRUST,
+         "5 C19"),
 }
 
 def hooks_commits():
